@@ -295,6 +295,18 @@ end
 
 /-! ### the matrices of the conversions -/
 
+/-- (statement audit) non-vacuity of `ladderLoop_first` / `_skip` / `_sound` / `_none_iff`: a two-atom list in the unit cell,
+    one atom `3/100000` below the far face.  Wanting 1 atom: the rung `1/10000` rounds it onto the face and keeps 1 (first rung
+    wins); wanting 2 atoms: the rung `1/10000` is skipped, the rung `1/100000` keeps both; wanting 3: no rung, `none`. -/
+example :
+    let nb : Box ℚ := ⟨M3.one, ⟨0, 0, 0⟩⟩
+    let sup : List (Atom ℚ) := [⟨1, ⟨1/2, 1/2, 1/2⟩, []⟩, ⟨2, ⟨1 - 3/100000, 1/2, 1/2⟩, [7]⟩]
+    (ladderFilter (1/10000) nb sup).length = 1 ∧ (ladderFilter (1/100000) nb sup).length = 2 ∧
+    ladderLoop 1 nb sup [1/10000, 1/100000] = some [⟨1, ⟨1/2, 1/2, 1/2⟩, []⟩] ∧
+    ladderLoop 2 nb sup [1/10000, 1/100000] = some sup ∧
+    ladderLoop 3 nb sup [1/10000, 1/100000] = none := by
+  decide +kernel
+
 /-- the settings with a table. -/
 def convSettings : List String := ["p", "i", "f", "a", "b", "c", "t1", "t2"]
 
